@@ -482,7 +482,7 @@ def custom_run(pid, tier, seed, replay=None):
                     more = dict(zip(extra_from_model, core.run_lines(zmodel, extra_from_model)))
                     mt.update(more)
                     bcases = dd(extra_from_model + bcases)
-            lanes = 2 if tier == "quick" else 4
+            lanes = 1 if tier == "quick" else 4   # quick: one target dir, so every external crate is compiled once
             limit = os.environ.get("C35_BUILD_LIMIT")   # self-test knob: keep only the first n build cases (search hits,
             if limit and not replay:                    # witnesses, repaired witness, all-features come first)
                 bcases = bcases[:max(1, int(limit))]
